@@ -117,15 +117,16 @@ def flowHandler : Handler := fun scn => do
       let fetchKey : Option Key :=
         if has rc "fetch" then (tj[nat (obj rc "fetch") "t"]?).bind fun t => optKey t "sec" else none
       let fetchNF := str (obj rc "fetch") "cls" == "notFound"
+      let fetchCls := clsOf (str (obj rc "fetch") "cls")
       let ts := tj.zipIdx.map fun (t, ti) =>
         if fresh.contains (xi, ti) then
           ({ cdName := "", ctrl := .owner, secret := none, fetchErr := false, cfgs := (arr t "cfgs").map cfgOf } : Tmpl)
         else
+        -- the composed resource's connection secret, read by the (one) secret fetcher
         let sec := optKey t "sec"
         let hit := sec.isSome && sec == fetchKey
-        let data := sec.bind fun k => (wget w k).map (·.data)
-        ({ cdName := str t "cd", ctrl := ctrlOfT (str t "ctrl"), secret := if hit then none else data,
-           fetchErr := hit && !fetchNF, cfgs := (arr t "cfgs").map cfgOf } : Tmpl)
+        Tmpl.fetched (str t "cd") (ctrlOfT (str t "ctrl")) ((arr t "cfgs").map cfgOf)
+          (fetchA w sec (if hit then some fetchCls else none))
       -- functions: the XR's own connection details are fetched first, through the same client
       let ownErr := fn && ref.isSome && ref == fetchKey && !fetchNF
       let e : EnvW := { fault := faultOf rc "fault" }
@@ -138,9 +139,35 @@ def flowHandler : Handler := fun scn => do
       recs := recs.push (Json.mkObj ([("composed", .bool composed)] ++ outJson out))
   return (Json.mkObj [("recs", Json.arr recs), ("secrets", worldJson w)], true, "")
 
+def faultOfJ (f : Json) : Option Fault :=
+  match f with
+  | .null => none
+  | _ => some ⟨nat f "idx", clsOf (str f "cls"), bool f "lost"⟩
+
+/-- the claim reconciler around the propagator (Model/C09World.lean `claimRec`) -/
+def claimHandler : Handler := fun scn => do
+  let mut w := worldOf scn
+  let xr : Option BoundXR :=
+    if bool scn "bound" then some ⟨"x:xr:1", optKey scn "xref", bool scn "ready", nat scn "xtime"⟩ else none
+  let c : ClaimIn := ⟨"c:claim:1", "ns", optStr scn "cref", bool scn "deleted", xr, nat scn "ctime"⟩
+  let mut rounds : Array Json := #[]
+  for r in arr scn "rounds" do
+    let e : EnvW := { fault := faultOfJ r }
+    let (w', o) := claimRec e w c
+    w := w'
+    rounds := rounds.push (Json.mkObj [("stamped", .bool o.stamped), ("err", .bool o.out.err), ("writes", Json.num o.out.writes)])
+  return (Json.mkObj [("rounds", Json.arr rounds), ("secrets", worldJson w)], true, "")
+
+def fvalOf (t : Json) : FVal :=
+  match str t "kind" with
+  | "int" => .int (int t "n")
+  | "bool" => .bool (bool t "b")
+  | _ => .strs (strs t "l")
+
 def handler : Handler := fun scn => do
   let op := str scn "op"
   if op == "ptflow" then return ← leakHandler scn
+  if op == "claimrec" then return ← claimHandler scn
   if op == "world" then return ← worldHandler scn
   if op == "flow" then return ← flowHandler scn
   let rounds := nat scn "rounds"
@@ -178,9 +205,17 @@ def handler : Handler := fun scn => do
     return (out, true, "")
   else
     let fields := dataOf scn "fields"
-    let fieldAt (p : String) : Option String :=
-      if p == "metadata.name" then some "cd"
-      else if p.startsWith "spec." then dget fields (p.drop 5).toString else none
+    let typed := (arr scn "typed").map fun t => (str t "k", fvalOf t)
+    -- the fieldpath library (parsing, indexing) is the oracle; what is done with the value is the model's
+    let valueAt (p : String) : Option FVal :=
+      if p == "metadata.name" then some (.str "cd")
+      else if p.startsWith "spec." then
+        let k := (p.drop 5).toString
+        match dget fields k with
+        | some v => some (.str v)
+        | none => (typed.find? (·.1 == k)).map (·.2)
+      else none
+    let fieldAt := fieldReader valueAt
     let cfgs := (arr scn "cfgs").map fun c =>
       (⟨str c "type", str c "name", if str c "key" == "" then none else some (str c "key"),
         if str c "path" == "" then none else some (str c "path"),
